@@ -1,6 +1,85 @@
-/-! line protocol for C09 (stub: no model yet) -/
+import ObiVerif.Model.Lcs
+import ObiVerif.Driver.Util
+/-! line protocol for C09 (see harness/c09.go for the ops) -/
 namespace ObiVerif.Driver.C09
+open ObiVerif.Lcs ObiVerif.Driver
 
-def run (_line : String) : String := "bad-op"
+def showLcs : Except Err (Int × Int × Int) → String
+  | .ok (s, l, e) => s!"{s} {l} {e}"
+  | .error .panic => "panic"
+  | .error .fuel => "fuel"
+
+def showD1 (d : D1) : String := s!"{d.verdict} {d.pos} {d.a1.toNat} {d.a2.toNat}"
+
+/-- both layers of `D1Or0` (verbatim loops, structural stripping) must agree: the structural layer is the one
+the theorems talk about -/
+def runD1 (a b : Seq) : Except Err D1 :=
+  match d1or0 a b with
+  | .ok d => if d1F a b = d then .ok d else .error .fuel
+  | .error e => .error e
+
+def showD1E : Except Err D1 → String
+  | .ok d => showD1 d
+  | .error .panic => "panic"
+  | .error .fuel => "layer-mismatch"
+
+/-- all words over {a,c,g,t} of length exactly `n`, in the order of the harness (first symbol slowest) -/
+def wordsN : Nat → List Seq
+  | 0 => [[]]
+  | n + 1 => [97, 99, 103, 116].flatMap (fun c => (wordsN n).map (fun w => c :: w))
+
+def wordsUpTo (n : Nat) : List Seq := (List.range (n + 1)).flatMap wordsN
+
+def pmod : UInt64 := 2305843009213693951
+
+def u64OfInt1 (x : Int) : UInt64 := UInt64.ofNat (x + 1).toNat
+
+def run (line : String) : String :=
+  match words line with
+  | ["samerow", x] =>
+    match x.toNat? with
+    | some x =>
+      if x > 255 then "bad-op" else
+      String.ofList ((List.range 256).map (fun y => if samenuc (UInt8.ofNat x) (UInt8.ofNat y) then '1' else '0'))
+    | none => "bad-op"
+  | ["lcs", a, b, e, egf, fill] =>
+    match unhex a, unhex b, e.toInt?, (if fill = "n" then some none else fill.toNat?.map (fun w => some (UInt64.ofNat w))) with
+    | some a, some b, some e, some fill =>
+      if e < -1 ∨ (egf ≠ "0" ∧ egf ≠ "1") then "bad-op" else
+      showLcs (fastLCSEGFScoreByte a b e (egf == "1") fill)
+    | _, _, _, _ => "bad-op"
+  | ["d1", a, b] =>
+    match unhex a, unhex b with
+    | some a, some b => showD1E (runD1 a b)
+    | _, _ => "bad-op"
+  | ["lcsall", a, ml, e, egf] =>
+    match unhex a, ml.toNat?, e.toInt? with
+    | some a, some ml, some e =>
+      if ml > 7 ∨ e < -1 ∨ (egf ≠ "0" ∧ egf ≠ "1") then "bad-op" else
+      let ws := wordsUpTo ml
+      let r := ws.foldl (fun (acc : Option UInt64) b =>
+        match acc, fastLCSEGFScoreByte a b e (egf == "1") none with
+        | some sum, .ok (s, l, en) =>
+          some ((sum * 1000003 + u64OfInt1 s * 10007 + u64OfInt1 l * 101 + u64OfInt1 en) % pmod)
+        | _, _ => none) (some 0)
+      match r with
+      | some sum => s!"{ws.length} {sum.toNat}"
+      | none => "panic"
+    | _, _, _ => "bad-op"
+  | ["d1all", a, ml] =>
+    match unhex a, ml.toNat? with
+    | some a, some ml =>
+      if ml > 7 then "bad-op" else
+      let ws := wordsUpTo ml
+      let r := ws.foldl (fun (acc : Option UInt64) b =>
+        match acc, runD1 a b with
+        | some sum, .ok d =>
+          some ((sum * 1000003 + u64OfInt1 d.verdict * 10007 + u64OfInt1 d.pos * 65536 + d.a1.toUInt64 * 256 + d.a2.toUInt64) % pmod)
+        | _, _ => none) (some 0)
+      match r with
+      | some sum => s!"{ws.length} {sum.toNat}"
+      | none => "panic"
+    | _, _ => "bad-op"
+  | _ => "bad-op"
 
 end ObiVerif.Driver.C09
